@@ -1223,4 +1223,20 @@ def feature_files() -> List[Feature]:
         more=[("f_ps_cps.odx-cs", comparam_subset("f_ps_cps", "CS.")),
               ("f_ps_spec.odx-c", comparam_spec("f_ps_spec", "f_ps_cps", "CS.").replace(
                   'ID="CSPEC.f_ps_spec"', 'ID="CSPEC.f_ps_spec"'))])
+    # -- a protocol stack over two subsets whose root elements carry the same ID (IDs are unique
+    # per document; the DOCREF tells the references apart)
+    prot2 = ('<PROTOCOL ID="P"><SHORT-NAME>f_ps2_prot</SHORT-NAME>'
+             '<COMPARAM-SPEC-REF ID-REF="CSPEC.f_ps2_spec" DOCREF="f_ps2_spec" '
+             'DOCTYPE="COMPARAM-SPEC"/></PROTOCOL>')
+    spec2 = comparam_spec("f_ps2_spec", "f_ps2_a", "CS.")
+    one = '<COMPARAM-SUBSET-REF ID-REF="CS.f_ps2_a" DOCREF="f_ps2_a" DOCTYPE="COMPARAM-SUBSET"/>'
+    assert one in spec2
+    spec2 = spec2.replace(one, (
+        '<COMPARAM-SUBSET-REF ID-REF="CS.sub" DOCREF="f_ps2_a" DOCTYPE="COMPARAM-SUBSET"/>'
+        '<COMPARAM-SUBSET-REF ID-REF="CS.sub" DOCREF="f_ps2_b" DOCTYPE="COMPARAM-SUBSET"/>'))
+    add("prot-stack-two-subsets-same-id", "ProtStack",
+        mini_container("f_ps2", other_layers={"PROTOCOLS": prot2}),
+        more=[("f_ps2_a.odx-cs", comparam_subset("f_ps2_a", "CS.").replace("CS.f_ps2_a", "CS.sub")),
+              ("f_ps2_b.odx-cs", comparam_subset("f_ps2_b", "CS.").replace("CS.f_ps2_b", "CS.sub")),
+              ("f_ps2_spec.odx-c", spec2)])
     return F
